@@ -111,7 +111,11 @@ func (e *FieldExpression) Evaluate(ctx *Context, input system.Collection) (syste
 		}
 		// unwrap if a ContainedResource
 		if contained, ok := message.(*bcrpb.ContainedResource); ok {
-			message = containedresource.Unwrap(contained)
+			resource := containedresource.Unwrap(contained)
+			if resource == nil {
+				continue // a wrapper without a resource in it has no elements
+			}
+			message = resource
 		}
 
 		// Get desired field
@@ -207,7 +211,11 @@ func (e *FieldExpression) Evaluate(ctx *Context, input system.Collection) (syste
 				return nil, err
 			}
 			if contained, ok := obj.(*bcrpb.ContainedResource); ok {
-				obj = containedresource.Unwrap(contained)
+				resource := containedresource.Unwrap(contained)
+				if resource == nil {
+					return nil, nil // a wrapper without a resource in it holds no element
+				}
+				obj = resource
 			}
 			return e.unwrapOneof(obj), nil
 		}
@@ -224,7 +232,9 @@ func (e *FieldExpression) Evaluate(ctx *Context, input system.Collection) (syste
 			if err != nil {
 				return nil, err
 			}
-			output = append(output, unwrapped)
+			if unwrapped != nil {
+				output = append(output, unwrapped)
+			}
 			continue
 		}
 		content := reflect.Get(field).List()
@@ -234,7 +244,9 @@ func (e *FieldExpression) Evaluate(ctx *Context, input system.Collection) (syste
 			if err != nil {
 				return nil, err
 			}
-			output = append(output, unwrapped)
+			if unwrapped != nil {
+				output = append(output, unwrapped)
+			}
 		}
 	}
 	if missing != nil && !known {
